@@ -554,3 +554,38 @@ Definition expand_ok (N : nat) (targets : list nat) : bool :=
   (length no =? N) && nodupb no && forallb (fun o => o <? N) no
   && forallb (fun i => nth (nth i targets 0) no 0 =? i) (seq 0 (length targets))
   && list_eqb (gather (rest_pos N targets) no) (seq (length targets) (N - length targets)).
+
+(* ------------------------------------------------------------------ *)
+(* Kronecker products of square factors (what `tensor` builds with
+   _data.kron), as functions of the flat indices; right nested, the last
+   factor is the fastest *)
+Section Kron.
+  Variable C : Type.
+  Variables c0 c1 : C.
+  Variables cadd cmul : C -> C -> C.
+  Definition mat : Type := nat -> nat -> C.
+
+  Fixpoint kron_list (As : list mat) (dims : list nat) : mat :=
+    match As, dims with
+    | A :: As', _ :: t =>
+        fun i j => cmul (A (i / prod t) (j / prod t))
+                        (kron_list As' t (i mod prod t) (j mod prod t))
+    | _, _ => fun _ _ => c1
+    end.
+
+  Definition mtrace (A : mat) (d : nat) : C := sum_upto C c0 cadd d (fun x => A x x).
+
+  (* product of the traces of a list of factors *)
+  Fixpoint tr_list (Bs : list mat) (ds : list nat) : C :=
+    match Bs, ds with
+    | B :: Bs', d :: t => cmul (mtrace B d) (tr_list Bs' t)
+    | _, _ => c1
+    end.
+
+  Definition mat_of_list (M : list (list C)) : mat :=
+    fun i j => nth j (nth i M []) c0.
+End Kron.
+
+Definition g1 : G := (1%Z, 0%Z).
+Definition gmul (a b : G) : G :=
+  ((fst a * fst b - snd a * snd b)%Z, (fst a * snd b + snd a * fst b)%Z).
